@@ -86,7 +86,9 @@ def run_shard(shard, ctx):
         cfg = unit['cfg']
         name = gen.cfg_str(cfg)
         if name not in algs:
-            alg = gen.make_algebra(cfg)
+            alg = gen.make_or_skip(ctx, cfg)
+            if alg is None:
+                continue
             algs[name] = (alg, Iso(alg))
             ctx.count('algebras')
         alg, iso = algs[name]
